@@ -16,6 +16,8 @@ from .dumper_base import DumperBase
 
 
 def jsonize(obj):
+    if obj is None:
+        return None
     return json.dumps(obj)
 
 
